@@ -29,7 +29,7 @@ LEVEL_TEXT = ("Decided: the two sides agree on keywords, section order, the orde
               "reader.  Two disagreements on the options block are genuine defects recorded as known "
               "findings.  Not decided: numerical round trip of strtod(print(x)) (library behaviour), binary "
               "format (the writer never produces it)."
-              "  Also decided (added after the seeded rounds): the reader's per-suffix scratch is fresh for each suffix.")
+              "  Also decided (added after the seeded rounds): the reader's per-suffix scratch is fresh for each suffix; the writer hands the suffix sets of all four kinds to WriteSuffixes.")
 LEVEL_NOTE = "Trusted: clang 14 front end/CFG, tool/mpx.cc, the rule module, fmt's '{}' / '{:.N}' semantics, strtod."
 DESIGN_REF = "DESIGN.md section 4, C05"
 EXPLANATION = (
